@@ -133,6 +133,31 @@ theorem delEdge_unpinned (st : St) (k : Id) (e : SEdge) (he : st.mesh.edge? k = 
     (hp : st.pinned ≠ some k) : st.delEdge k = .ok { st with mesh := st.mesh.delEdge k } := by
   simp only [St.delEdge, he, if_neg hp]
 
+/-! ### the inner-triangle loop (`for triangle_ends in inner_edge_triangles`) -/
+
+/-- the loop raises nothing but KeyError / ValueError (`self.vertices[…]`, `self.cells[…]`, `del self.edges[…]`,
+    `Cell.replace_vertex`): an empty `np.setdiff1d(edge_0, edge_1)` is skipped, there is no IndexError -/
+theorem triangles_error_kinds (st : St) (bigs : List (List Id)) (e : Err) (h : triangles st bigs = .error e) :
+    e = .keyError ∨ e = .valueError :=
+  triangles_error h
+
+theorem triangles_no_indexError (st : St) (bigs : List (List Id)) : triangles st bigs ≠ .error .indexError := by
+  intro h
+  rcases triangles_error h with h | h <;> cases h
+
+/-- `max(same_ends, key=len)` / `min(same_ends, key=len)` are never taken of an empty list: every key the loop
+    visits is matched by the interface it was read from -/
+theorem sameEnds_nonempty (bigs : List (List Id)) (k : Id × Id) (h : k ∈ dupKeys (firstLast bigs)) :
+    sameEnds bigs k ≠ [] ∧ (firstLongest (sameEnds bigs k)).isSome = true ∧
+      (firstShortest (sameEnds bigs k)).isSome = true :=
+  ⟨sameEnds_ne_nil h, firstLongest_isSome (sameEnds_ne_nil h), firstShortest_isSome (sameEnds_ne_nil h)⟩
+
+/-- non-vacuity: two interfaces with the same ends (one of three, one of two vertices) and a third one -/
+example : dupKeys (firstLast [[1, 5, 2], [2, 1], [2, 7, 8, 3]]) = [(1, 2), (2, 1)] ∧
+    sameEnds [[1, 5, 2], [2, 1], [2, 7, 8, 3]] (1, 2) = [[1, 5, 2], [2, 1]] ∧
+    firstLongest [[1, 5, 2], [2, 1]] = some [1, 5, 2] ∧ firstShortest [[1, 5, 2], [2, 1]] = some [2, 1] := by
+  decide +kernel
+
 /-! ### `create_lattice` = precheck, first loop, clean-up -/
 
 theorem createLattice_unfold (cs : List (List Px)) (mir : Bool)
